@@ -233,6 +233,13 @@ def _replace_calls(n, targets, fns, counter, done):
 
 
 def _strip_ref_ty(t):
+    t = _strip_ref_ty0(t)
+    if t.startswith("[") and t.endswith("]") and ";" not in t:
+        t = "std::vec::Vec<%s>" % t[1:-1]          # a slice parameter takes the same arguments as a `&Vec<T>` one
+    return t
+
+
+def _strip_ref_ty0(t):
     t = (t or "").strip()
     while t.startswith("&"):
         t = t[1:].lstrip()
